@@ -40,12 +40,12 @@ def term_events(traces, scen):
                     undecided = True
                 n = 1 + g["ext"]
                 for i in range(n):
-                    rows.append({"s": "%s.%d#%d" % (b, i, f["k"]), "persist": bool(popped)})
+                    rows.append({"s": "%s.%d#%d" % (b, i, f["k"]), "base": "%s.%d" % (b, i), "persist": bool(popped)})
             if undecided:
                 break
-            lines = [{"s": "%s#%d" % (t, f["k"]), "persist": True} for t in f["text"]] + rows
+            lines = [{"s": "%s#%d" % (t, f["k"]), "base": "", "persist": True} for t in f["text"]] + rows
             out.append({"tr": tid, "h": 200, "w": sc["cfg"]["width"], "k": f["k"], "cuu": f["cuu"],
-                        "lines": lines, "nrows": len(rows), "maxw": f["maxw"]})
+                        "lines": lines, "nrows": len(rows), "maxw": f["maxw"], "exact": True})
     return out
 
 
